@@ -316,6 +316,7 @@ class CompilerProcess:
                     for fr in traceback.extract_tb(exc.__traceback__)
                     if "/verif/" not in fr.filename
                 ][-12:]
+        fs.end_op()
         rec["seams"] = [k for (_, k, _) in fs.trace]
         wrote = sorted({p.rsplit("/", 1)[-1] for (_, k, p) in fs.trace if k == "open_w" and p})
         if wrote:
